@@ -63,7 +63,7 @@ def has_mode(m, mode):
 
 class AsmForms:
     name = "asm_forms"
-    props = ("C01", "C02", "C12", "C13")
+    props = ("C01", "C02", "C12", "C13", "C17")
 
     def cells(self, tier):
         rows = MACHINE if tier == "thorough" else representatives()
